@@ -61,6 +61,9 @@ def run(ctx, rep, tier):
     rep.rule("R1", "Detailed-step callbacks observe the exported (legalized / current) placement", 2)
     rep.rule("KO", "cells without polarity keep their input orientation", 3)
     rep.rule("R2", "DetailedPlacement::check rejects INVALID", 1)
+    rep.rule("CA", "the polarity (and every other per-cell vector) given to the legalizer is in the legalizer's compact cell numbering", 2)
+    from .common import check_compaction
+    check_compaction(ctx, rep, "CA", ctx.prog.func1(CQ + "Legalizer::fromIspdCircuit"), ctx.prog.func1(CQ + "Legalizer::exportPlacement"))
     check_tables(ctx, rep, spec)
     for q, pairs in PREDICATES.items():
         check_predicate(ctx, rep, prog.func1(CQ + q), pairs)
@@ -198,9 +201,20 @@ def admitting_exits(func):
         if not ch:
             continue
         c = canon(ch[0])
-        while c[0] == "construct" and len(c) == 3 and c[2][0] in ("call", "construct"):
+        while c[0] == "construct" and len(c) == 3 and c[2][0] in ("call", "construct", "var"):
             c = c[2]
+        if c[0] == "var":
+            # `const std::pair<bool, int> notPlaceable(false, 0); ... return notPlaceable;`: the value is what the constant was built from
+            d0 = func.unit.by_id.get(c[1])
+            if d0 is not None and d0.get("kind") == "VarDecl" and qt(d0).startswith("const ") and "bool" != qt(d0).replace("const ", "").strip() and children(d0):
+                c0 = canon(children(d0)[-1])
+                while c0[0] == "construct" and len(c0) == 3 and c0[2][0] in ("call", "construct"):
+                    c0 = c0[2]
+                if c0[0] in ("construct", "call", "initlist"):
+                    c = c0
         if c == ("lit", False):
+            continue
+        if c[0] == "initlist" and len(c) > 1 and ("lit", False) in c[1:3]:
             continue
         if c[0] == "call" and c[1] == "make_pair" and len(c) > 3 and c[3] == ("lit", False):
             continue
@@ -260,14 +274,39 @@ def neighbour_shortcut(g, node):
             return False
     if not edges:
         return False
+    def adjacency(c):
+        return c[0] == "bin" and c[1] == "==" and c[2][0] == "call" and c[2][1].endswith("::cellPred") and c[3][0] == "var"
     for e in edges:
         c = canon(e.ast)
-        if not (e.val is True and c[0] == "bin" and c[1] == "==" and c[2][0] == "call" and c[2][1].endswith("::cellPred") and c[3][0] == "var"):
+        if e.val is True and adjacency(c):
+            continue
+        # a named predicate (`areNeighbours(c1, c2)`) whose only statement returns a disjunction of adjacency tests
+        ok = False
+        x = strip(e.ast, casts=True)
+        if e.val is True and x.get("kind") in ("CXXMemberCallExpr", "CallExpr") and CTX[0] is not None:
+            _ci, hs = CTX[0].eff.resolve_callee(x)
+            if len(hs) == 1 and hs[0].body is not None:
+                st = [y for y in inner(hs[0].body) if isinstance(y, dict) and y.get("kind")]
+                if len(st) == 1 and st[0].get("kind") == "ReturnStmt" and children(st[0]):
+                    atoms = []
+
+                    def flat(t):
+                        if t[0] == "bin" and t[1] == "||":
+                            flat(t[2]); flat(t[3])
+                        else:
+                            atoms.append(t)
+                    flat(canon(children(st[0])[0]))
+                    ok = bool(atoms) and all(adjacency(t) for t in atoms)
+        if not ok:
             return False
     return True
 
 
+CTX = [None]
+
+
 def check_predicate(ctx, rep, f, pairs):
+    CTX[0] = ctx
     g = cfg_of(f)
     exits = admitting_exits(f)
     if not exits:
@@ -279,10 +318,10 @@ def check_predicate(ctx, rep, f, pairs):
             rep.holds("SA", x, f, "neighbour swap admitted (both cells stay in their common row)", "listed exception: same row")
             continue
         have = set()
-        for ast, val, _e in g.dom_edges(n):
+        for gc_, val, _ast, _fl in (ctx.guards(f, x, derived=True) or []):
             if not isinstance(val, bool):
                 continue
-            t = compat_test(ctx, f, canon(ast), val)
+            t = compat_test(ctx, f, gc_, val)
             if t:
                 have.add(t)
         missing = [p for p in pairs if p not in have]
@@ -374,7 +413,11 @@ def check_commits(ctx, rep, rid):
                canon(callee_info(y)["obj"]) == ("index", ("field", ROWLIST, ("this",)), R)]
         together = flag and lst and same_block(g, g.node_for(x), g.node_for(flag[0])) and same_block(g, g.node_for(x), g.node_for(lst[0]))
         what = "commit %s.push" % pretty(oc)
-        if not ok:
+        if not ok and R[0] != "var":
+            # the committed row is not a local variable (a member of a local search-state object, a returned struct): the provenance
+            # rule follows plain locals only
+            rep.unknown(rid, x, f, what, why + " (the rule follows plain local candidate variables only)")
+        elif not ok:
             rep.violation(rid, x, f, what, why, key="AbacusLegalizer::placeCell|commit not admitted")
         elif not together:
             rep.violation(rid, x, f, what, "the row push, the push of the cell into the row's cell list and cellIsPlaced_[cell] = true are not performed together on the same row",
